@@ -40,6 +40,8 @@ type History struct {
 	RevertedThisTx     bool
 	ResetThisTx        map[ethcmn.Address]bool // CreateAccount over an existing account
 	ResetEarlier       map[ethcmn.Address]bool
+	EmptiedThisTx      map[ethcmn.Address]bool // existed, then deleted as empty (EIP-161) by Finalise
+	EmptiedEarlier     map[ethcmn.Address]bool
 }
 
 func NewHistory() *History {
@@ -49,6 +51,8 @@ func NewHistory() *History {
 		DestroyedEarlier:   map[ethcmn.Address]bool{},
 		ResetThisTx:        map[ethcmn.Address]bool{},
 		ResetEarlier:       map[ethcmn.Address]bool{},
+		EmptiedThisTx:      map[ethcmn.Address]bool{},
+		EmptiedEarlier:     map[ethcmn.Address]bool{},
 	}
 }
 
@@ -61,6 +65,10 @@ func (h *History) endTx() {
 		h.ResetEarlier[a] = true
 	}
 	h.ResetThisTx = map[ethcmn.Address]bool{}
+	for a := range h.EmptiedThisTx {
+		h.EmptiedEarlier[a] = true
+	}
+	h.EmptiedThisTx = map[ethcmn.Address]bool{}
 	h.RevertedThisTx = false
 }
 
@@ -101,6 +109,12 @@ func slotTombstoned(w *AdapterWorld, a ethcmn.Address, k ethcmn.Hash) bool {
 // the divergence is about (the differing account, or everything the current
 // transaction touched for transaction-level differences).
 func contextFor(h *History, w *AdapterWorld, u *Universe, addrs []ethcmn.Address, fallback string) string {
+	return contextForHint(h, w, u, addrs, fallback, false)
+}
+
+// tombstoneFirst: the symptom is known to come from a deleted keeper record,
+// so name the circumstances of that deletion before anything else.
+func contextForHint(h *History, w *AdapterWorld, u *Universe, addrs []ethcmn.Address, fallback string, tombstoneFirst bool) string {
 	any := func(m map[ethcmn.Address]bool) bool {
 		for _, a := range addrs {
 			if m[a] {
@@ -109,6 +123,16 @@ func contextFor(h *History, w *AdapterWorld, u *Universe, addrs []ethcmn.Address
 		}
 		return false
 	}
+	if tombstoneFirst {
+		for _, a := range addrs {
+			if keeperTombstoned(w, a) {
+				if h.DestroyedSameBlock[a] {
+					return "touch-destroyed-same-block"
+				}
+				return "touch-deleted-empty-same-block"
+			}
+		}
+	}
 	switch {
 	case any(h.DestroyedThisTx):
 		return "selfdestruct"
@@ -116,6 +140,12 @@ func contextFor(h *History, w *AdapterWorld, u *Universe, addrs []ethcmn.Address
 		return "touch-destroyed-same-block"
 	case any(h.DestroyedEarlier):
 		return "touch-destroyed-later-block"
+	}
+	if any(h.ResetThisTx) || any(h.ResetEarlier) {
+		return "account-recreated"
+	}
+	if any(h.EmptiedThisTx) || any(h.EmptiedEarlier) {
+		return "emptied-account-deleted"
 	}
 	for _, a := range addrs {
 		if keeperTombstoned(w, a) {
@@ -194,12 +224,6 @@ func diffViews(ad, rf acctView, slots []ethcmn.Hash) (fields []string, detail st
 		}
 		detail += d
 	}
-	if ad.Exist != rf.Exist {
-		add(fmt.Sprintf("exist-adapter-%v", ad.Exist), fmt.Sprintf("Exist adapter=%v ref=%v", ad.Exist, rf.Exist))
-	}
-	if ad.Empty != rf.Empty {
-		add(fmt.Sprintf("empty-adapter-%v", ad.Empty), fmt.Sprintf("Empty adapter=%v ref=%v", ad.Empty, rf.Empty))
-	}
 	if c := ad.Balance.Cmp(rf.Balance); c != 0 {
 		dir := "balance-adapter-higher"
 		if c < 0 {
@@ -231,6 +255,13 @@ func diffViews(ad, rf acctView, slots []ethcmn.Hash) (fields []string, detail st
 			add("committed-storage-"+storageTrait(ad.Commit[k], rf.Commit[k]), fmt.Sprintf("GetCommittedState[%s] adapter=%s ref=%s", shortHash(k), shortHash(ad.Commit[k]), shortHash(rf.Commit[k])))
 			break
 		}
+	}
+	// existence last: it is the least specific symptom
+	if ad.Exist != rf.Exist {
+		add(fmt.Sprintf("exist-adapter-%v", ad.Exist), fmt.Sprintf("Exist adapter=%v ref=%v", ad.Exist, rf.Exist))
+	}
+	if ad.Empty != rf.Empty {
+		add(fmt.Sprintf("empty-adapter-%v", ad.Empty), fmt.Sprintf("Empty adapter=%v ref=%v", ad.Empty, rf.Empty))
 	}
 	return
 }
@@ -275,7 +306,7 @@ func compareState(w *AdapterWorld, r *RefWorld, u *Universe, h *History, phase s
 			}
 			continue
 		}
-		return &Divergence{Rule: "final-state", Context: contextFor(h, w, u, []ethcmn.Address{a}, "plain"), Trait: strings.Join(fields, "+"),
+		return &Divergence{Rule: "final-state", Context: contextFor(h, w, u, []ethcmn.Address{a}, "plain"), Trait: fields[0],
 			What: fmt.Sprintf("account %s after %s: %s", a.Hex(), phase, detail)}
 	}
 	for _, a := range u.Addrs() {
@@ -290,8 +321,11 @@ func compareState(w *AdapterWorld, r *RefWorld, u *Universe, h *History, phase s
 		if raw.Cmp(got) != 0 {
 			ctx := contextFor(h, w, u, []ethcmn.Address{a}, "plain")
 			trait := "record-differs-from-adapter-balance"
-			if raw.Cmp(got) > 0 && (h.DestroyedThisTx[a] || h.DestroyedSameBlock[a] || h.DestroyedEarlier[a]) {
+			switch {
+			case raw.Cmp(got) > 0 && (h.DestroyedThisTx[a] || h.DestroyedSameBlock[a] || h.DestroyedEarlier[a]):
 				trait = "destroyed-account-balance-record-kept"
+			case raw.Cmp(got) > 0 && (h.EmptiedThisTx[a] || h.EmptiedEarlier[a]):
+				trait = "emptied-account-balance-record-kept"
 			}
 			return &Divergence{Rule: "native-balance-record", Context: ctx, Trait: trait,
 				What: fmt.Sprintf("native record b_%s_OLT=%v but adapter GetBalance=%v (reference %v) after %s", a.Hex(), raw, got, r.DB.GetBalance(a), phase)}
@@ -419,4 +453,17 @@ func logsTrait(detail string) string {
 		return "txhash-differs"
 	}
 	return "content-differs"
+}
+
+// errorTrait names a consensus-error mismatch.
+func errorTrait(ctx, adapterClass, refClass string) string {
+	if refClass == "none" && strings.Contains(adapterClass, "tombstone") {
+		switch ctx {
+		case "touch-destroyed-same-block":
+			return "later-tx-touching-destroyed-address-fails"
+		case "touch-deleted-empty-same-block":
+			return "later-tx-touching-deleted-empty-address-fails"
+		}
+	}
+	return "adapter-" + adapterClass + "-ref-" + refClass
 }
